@@ -191,12 +191,12 @@ func (b Bool) MarshalJSON() ([]byte, error) {
 // MarshalJSON creates a key-value pair in JSON format. A null value
 // in an attribute will return an empty byte array.
 func (a *Attribute) MarshalJSON() ([]byte, error) {
-	if _, ok := a.Value.(Null); ok {
-		return nil, nil
-	}
 	key, err := encodeString(a.Key)
 	if err != nil {
 		return nil, err
+	}
+	if _, ok := a.Value.(Null); ok {
+		return nil, nil
 	}
 	val, err := a.Value.MarshalJSON()
 	if err != nil {
